@@ -129,6 +129,32 @@ def check(ctx):
                     cc.add("run", "parse_%s_str" % k, hx(mutated), hx("t.sv"))
                     meta[cc.id] = ("stop", k, mutated, len(hdr.encode()) + b, "t.sv", s)
                     cases.append(cc)
+        # the fault inside a file that is included in the MIDDLE of a construct: the stretch between two token boundaries
+        # around the fault moves into part.svh (whatever blocks are open at that point were opened in the parent file)
+        if len(bs) >= 3:
+            for _ in range(2 if q and not deep else 10):
+                i1, i2 = sorted(r.sample(range(len(bs)), 2))
+                if i2 - i1 < 2:
+                    continue
+                b1, b2 = bs[i1], bs[i2]
+                # at least one whole token of the included part stands before the fault, so that "at or before the
+                # fault" cannot mean the white space in front of the part (which belongs to the including file)
+                b = r.choice(bs[i1 + 2:i2 + 1])
+                stop = r.choice(STOP)
+                part_ok = text[b1:b2].decode("utf-8", "replace")
+                part_bad = (text[b1:b] + stop.encode() + text[b:b2]).decode("utf-8", "replace")
+                top = text[:b1].decode("utf-8", "replace") + "\n`include \"part.svh\"\n" + text[b2:].decode("utf-8", "replace")
+                whole_bad = (text[:b] + stop.encode() + text[b:]).decode("utf-8", "replace")
+                for tag, part in (("ctl", part_ok), ("whole", None), ("split", part_bad)):
+                    cc = Case("m%d" % n); n += 1
+                    if tag == "whole":       # the same faulty text in one file: where does the parser locate the error?
+                        cc.add("want", "tree").add("run", "parse_%s_str" % k, hx(whole_bad), hx("t.sv"))
+                        meta[cc.id] = (tag, k, whole_bad, b1, "t.sv", s)
+                    else:
+                        cc.add("want", "tree").add("file", hx("part.svh"), hx(part))
+                        cc.add("run", "parse_%s_str" % k, hx(top), hx("top.sv"))
+                        meta[cc.id] = (tag, k, top + "\n---- part.svh ----\n" + part, b - b1, "part.svh", s)
+                    cases.append(cc)
         ds = delimiters(tree, text)
         for off, ln, w in (ds if not q or deep else r.sample(ds, min(len(ds), 5))):
             mutated = (text[:off] + text[off + ln:]).decode("utf-8")
@@ -149,9 +175,28 @@ def check(ctx):
         cases.append(cc)
     impl = run_harness("api", cases, "c14b", timeout=1800)
     bad = None
+    ctl_ok, whole_off, whole_b1 = True, None, 0
     for cc in cases:
         kind, k, mutated, pos, extra, orig = meta[cc.id]
         lines = impl.get(cc.id) or []
+        if kind == "ctl":          # the unfaulted split: if it is not accepted the split itself is unusable
+            ctl_ok = any(l.startswith("tree ") for l in lines)
+            ctx.count("split_control_%s" % ("ok" if ctl_ok else "rejected"))
+            continue
+        if kind == "whole":
+            # known class error-file-across-include: the parser locates the error at the start of the construct that holds
+            # the fault; when that start lies before the included part the error is (rightly, position-wise) in the parent
+            e = [x for x in ([l for l in lines if l.startswith("err ")] or [""])[0].split() if x not in ("err", "Include(", ")")]
+            whole_off = int(e[2]) if len(e) >= 3 and e[0] == "Parse" and e[1] != "-" else None
+            whole_b1 = pos
+            continue
+        if kind == "split":
+            if not ctl_ok:
+                continue
+            if whole_off is None or whole_off < whole_b1:
+                ctx.count("split_error_located_before_the_included_part")
+                continue
+            kind = "stop"
         ctx.corr_cases += 1
         cr = crashed(lines)
         if cr:
@@ -190,12 +235,56 @@ def check(ctx):
     if bad:
         rp = write_replay(ctx, "src-" + sha(bad[2])[:8], {"property": "C14", "kind": bad[0], "grammar": bad[1], "source": bad[2], "why": bad[3]})
         ctx.viol.append(Violation("invalid source: " + bad[3], rp))
+    # corpus of splits that the validated tree reports in the included file: every one of them must stay so
+    sp = json.load(open(os.path.join(VERIF, "corpus", "C14-splits.json")))
+    sc = []
+    for i, e in enumerate(sp if not q else r.sample(sp, 150)):
+        sc.append((Case("c%d" % i).add("want", "tree").add("file", hx("part.svh"), hx(e["part"]))
+                   .add("run", "parse_sv_str", hx(e["top"]), hx("top.sv")), e))
+    impl3 = run_harness("api", [c for c, _ in sc], "c14sp", timeout=1800)
+    bad3 = None
+    for c, e in sc:
+        lines = impl3.get(c.id) or []
+        ctx.corr_cases += 1
+        x = [w for w in ([l for l in lines if l.startswith("err ")] or [""])[0].split() if w not in ("err", "Include(", ")")]
+        if crashed(lines):
+            bad3 = bad3 or (e, crashed(lines))
+        elif len(x) < 3 or x[0] != "Parse" or x[1] == "-":
+            bad3 = bad3 or (e, "expected Error::Parse with a location, got %s" % (lines[1:2] or lines[:1]))
+        elif unhx(x[1]).decode() != "part.svh":
+            bad3 = bad3 or (e, "the error names %s, the byte is in part.svh (included in the middle of nested blocks)" % unhx(x[1]).decode())
+        elif int(x[2]) > e["pos"]:
+            bad3 = bad3 or (e, "the reported offset %s is after the inserted byte at %d" % (x[2], e["pos"]))
+    ctx.obl("search-oracle:faults inside a file included in the middle of nested blocks are reported in that file (corpus/C14-splits.json)",
+            "oracle", bad3 is None, bad3[1] if bad3 else "")
+    if bad3:
+        rp = write_replay(ctx, "split-" + sha(bad3[0]["top"] + bad3[0]["part"])[:8], {
+            "property": "C14", "kind": "stop", "grammar": "sv", "source": bad3[0]["top"] + "\n---- part.svh ----\n" + bad3[0]["part"],
+            "files": {"top.sv": bad3[0]["top"], "part.svh": bad3[0]["part"]}, "why": bad3[1]})
+        ctx.viol.append(Violation("invalid source: " + bad3[1], rp))
+    findings, _ = load_known()
+    if any(f.get("property") == "C14" and f.get("id") == "error-file-across-include" for f in findings):
+        w = json.load(open(os.path.join(VERIF, "corpus", "C14-across-include.json")))
+        c = Case("kf").add("want", "tree").add("file", hx("part.svh"), hx(w["part.svh"])).add("run", "parse_sv_str", hx(w["top.sv"]), hx("top.sv"))
+        lines = run_harness("api", [c], "c14kf").get("kf", [])
+        e = [x for x in ([l for l in lines if l.startswith("err ")] or [""])[0].split() if x not in ("err", "Include(", ")")]
+        if len(e) >= 3 and e[0] == "Parse" and e[1] != "-" and unhx(e[1]).decode() == "top.sv":
+            ctx.known_printed.append("error-file-across-include")
+        else:
+            ctx.notes.append("known finding error-file-across-include no longer reproduces: %s" % lines[:2])
 
 
 def replay(ctx, path):
     build_impl(ctx)
     d = json.load(open(path))
-    c = Case("r").add("want", "tree").add("run", "parse_%s_str" % d["grammar"], hx(d["source"]), hx("t.sv"))
+    if "files" in d:
+        c = Case("r").add("want", "tree")
+        for pth, t in d["files"].items():
+            if pth != "top.sv":
+                c.add("file", hx(pth), hx(t))
+        c.add("run", "parse_%s_str" % d["grammar"], hx(d["files"]["top.sv"]), hx("top.sv"))
+    else:
+        c = Case("r").add("want", "tree").add("run", "parse_%s_str" % d["grammar"], hx(d["source"]), hx("t.sv"))
     lines = run_harness("api", [c], "c14rp").get("r", [])
     print([l[:120] for l in lines[:3]])
     print("replay:", d["why"])
